@@ -1,3 +1,4 @@
+import Driver.Escape
 import Driver.Layout
 import Driver.Paginate
 import Driver.Util
